@@ -120,6 +120,9 @@ func fetchOutcome(r *Res, s Settings) (attempts int, ok bool) {
 		}
 		return s.MaxRetry + 1, false
 	}
+	if r.BodyErr && r.Kind != "redirect" && r.Kind != "status" {
+		return 1, false // answered 200, so not retried; the body cannot be read: the item fails
+	}
 	return 1, true
 }
 
